@@ -349,3 +349,21 @@ package cbreaker
 //@   ensures starts_in_standby: result1 == nil ==> result0.state == 0 && result0.rc == nil
 //@   ensures default_periods_without_options: result1 == nil && len(options) == 0 ==> result0.checkPeriod == 100000000 && result0.fallbackDuration == 10000000000 && result0.recoveryDuration == 10000000000 && result0.fallback != nil
 //@   loop 1 invariant cb != nil && fresh(cb) && fresh(cb.m) && cb.next == next && cb.state == 0 && cb.rc == nil && (len(options) == 0 ==> cb.checkPeriod == 100000000 && cb.fallbackDuration == 10000000000 && cb.recoveryDuration == 10000000000 && cb.fallback != nil)
+
+// ---- the webhook side effect: every execution sends a request built anew from the configuration (a reader is consumed by
+// the request that carries it) ---------------------------------------------------------------------------------------------------
+//@ extern net/http.NewRequest
+//@   params method url body
+//@   modifies nothing
+//@   ensures request_or_error: result1 == nil ==> result0 != nil && fresh(result0) && result0.Header != nil
+//@ extern (*net/http.Client).Do
+//@   params c req
+//@   modifies everything
+//@   maypanic
+//@   ensures response_or_error: result1 == nil ==> result0 != nil
+//@ func (*WebhookSideEffect).Exec
+//@   props C18
+//@   requires w != nil
+//@   modifies external
+//@   ensures payload_built_for_this_execution: calls(getBody) == 1
+//@   at_call http.NewRequest configured_request: calls(getBody) == 1 && arg2 == callres(getBody, 0, 0)
